@@ -82,6 +82,7 @@ def step (s : St) (toks : List String) : Option (St × String × String) :=
   | "others" :: _ => some (s, "preserved", "preserved") -- raw bytes of every other key / entry unchanged
   | "kill" :: _ => some (s, "ok", "ok")                 -- crash point: old or new complete file, mode 0600
   | "concurrent" :: _ => some (s, "serialisable", "serialisable")
+  | "legacyrace" :: _ => some (s, "survived", "survived")   -- runtime monitor: legacy-key Get against concurrent writers
   | _ => none
 
 end Oras.Driver.Cd
